@@ -310,10 +310,21 @@ Lemma rc_scale rx ry x y s : rx <> 0 -> ry <> 0 -> s <> 0 ->
   arc_rc NumR (rx * s, ry * s) (x, y) = arc_rc NumR (rx, ry) (x, y) / (s * s).
 Proof. intros. unfold arc_rc. rsimp. field; repeat split; assumption. Qed.
 
+Lemma bool_cases (b : bool) : b = true \/ b = false.
+Proof. destruct b; auto. Qed.
+
+(* threshold of the radicand below which the radical is set to 0 *)
+Definition snap_thr_of (fx : bool) : R := if fx then 0 else atol8 NumR.
+Lemma snap_thr_of_ge0 fx : 0 <= snap_thr_of fx.
+Proof. unfold snap_thr_of. pose proof atol8_R_pos. destruct fx; lra. Qed.
+
 Section Param.
   Variables start radius end_ : Cplx R.
   Variable rotation : R.
   Variables large sweep : bool.
+  (* variant of the radical rule: false = pinned code (np.isclose snap),
+     true = repaired code (0 iff the radii were scaled or radicand <= 0) *)
+  Variable fx : bool.
   Hypothesis Hse : start <> end_.
   Hypothesis Hrx0 : fst radius <> 0.
   Hypothesis Hry0 : snd radius <> 0.
@@ -325,11 +336,11 @@ Section Param.
   Let rc0 := arc_rc_of NumR NumTR start radius rotation end_.
   Let rS := arc_radius_of NumR NumTR start radius rotation end_.
   Let radicand := arc_radicand_of NumR NumTR start radius rotation end_.
-  Let radical := arc_radical NumR NumTR radicand.
-  Let cp := arc_cp_of NumR NumTR start radius rotation large sweep end_.
-  Let u1 := arc_u1_of NumR NumTR start radius rotation large sweep end_.
-  Let u2 := arc_u2_of NumR NumTR start radius rotation large sweep end_.
-  Let P := arc_init NumR NumTR start radius rotation large sweep end_.
+  Let radical := arc_radical_of NumR NumTR fx start radius rotation end_.
+  Let cp := arc_cp_of NumR NumTR fx start radius rotation large sweep end_.
+  Let u1 := arc_u1_of NumR NumTR fx start radius rotation large sweep end_.
+  Let u2 := arc_u2_of NumR NumTR fx start radius rotation large sweep end_.
+  Let P := arc_init_v NumR NumTR fx start radius rotation large sweep end_.
 
   Lemma rotm_eq : rotm = (cos phi, sin phi).
   Proof. reflexivity. Qed.
@@ -440,23 +451,43 @@ Section Param.
     fold rcS. destruct rcS_cases as [[? _]|[H' ->]]; lra.
   Qed.
 
-  (* the np.isclose snap leaves the value unchanged: radicand = 0 or > 1e-8 *)
-  Definition snap_inactive : Prop := isclose0 NumR radicand = true -> radicand = 0.
+  (* the threshold below which the radical is set to 0, and "the snap leaves the value
+     unchanged": for the pinned code radicand = 0 or > 1e-8; always true for the repaired code *)
+  Let snap_thr : R := snap_thr_of fx.
+  Definition snap_inactive : Prop :=
+    if fx then True else (isclose0 NumR radicand = true -> radicand = 0).
+  Let fx_cases : fx = true \/ fx = false := bool_cases fx.
+  Let snap_thr_ge0 : 0 <= snap_thr := snap_thr_of_ge0 fx.
+
+  Lemma radical_cases : (radical = 0 /\ radicand <= snap_thr) \/ (radical = sqrt radicand /\ snap_thr < radicand).
+  Proof.
+    pose proof radicand_ge0 as Hr. pose proof atol8_R_pos as Ha.
+    unfold radical, arc_radical_of, arc_radical, snap_thr, snap_thr_of. fold rc0 radicand.
+    destruct fx_cases as [E|E]; rewrite E; clear E.
+    - cbn [ltb leb NumR one zero]. unfold Rlt_b, Rle_b.
+      destruct (Rlt_dec 1 rc0) as [Hs|Hs]; cbn [orb].
+      + left. split; [reflexivity|]. rewrite radicand_scaled by lra. lra.
+      + destruct (Rle_dec radicand 0); [left; split; [reflexivity|lra]|right; split; [reflexivity|lra]].
+    - destruct (isclose0 NumR radicand) eqn:E.
+      + left. split; [reflexivity|]. apply isclose0_R in E. rewrite Rabs_right in E by lra. exact E.
+      + right. split; [reflexivity|].
+        assert (~ Rabs radicand <= atol8 NumR) as Hn by (rewrite <- isclose0_R; congruence).
+        rewrite Rabs_right in Hn by lra. lra.
+  Qed.
 
   Lemma radical_sq : snap_inactive -> radical * radical = radicand.
   Proof.
-    intros Hs. unfold radical, arc_radical.
-    destruct (isclose0 NumR radicand) eqn:E.
-    - rewrite (Hs E). change (zero NumR) with 0. ring.
-    - cbn [sqrt_ NumTR]. apply sqrt_sqrt. apply radicand_ge0.
+    intros Hs. pose proof radicand_ge0 as Hr.
+    destruct radical_cases as [[-> Hle]|[-> _]]; [|apply sqrt_sqrt; exact Hr].
+    unfold snap_inactive, snap_thr, snap_thr_of in *. destruct fx_cases as [E|E]; rewrite E in *.
+    - assert (radicand = 0) as -> by lra. ring.
+    - rewrite Hs; [ring|]. apply isclose0_R. rewrite Rabs_right; lra.
   Qed.
   Lemma radical_ge0 : 0 <= radical.
-  Proof. unfold radical, arc_radical. destruct (isclose0 NumR radicand).
-    - change (zero NumR) with 0. lra.
-    - cbn [sqrt_ NumTR]. apply sqrt_pos. Qed.
+  Proof. destruct radical_cases as [[-> _]|[-> _]]; [lra|apply sqrt_pos]. Qed.
 
   Lemma cp_eq : cp = arc_cp NumR large sweep radical (fst rS, snd rS) (fst z, snd z).
-  Proof. unfold cp, arc_cp_of. fold radicand radical rS z. now rewrite <- !surjective_pairing. Qed.
+  Proof. unfold cp, arc_cp_of. fold radical rS z. now rewrite <- !surjective_pairing. Qed.
 
   Let u1r := arc_u1_raw NumR (fst rS, snd rS) (fst z, snd z) cp.
   Let u2r := arc_u2_raw NumR (fst rS, snd rS) (fst z, snd z) cp.
@@ -468,9 +499,8 @@ Section Param.
   (* |u|^2 <= 1 always (with or without the snap), so np.clip never acts *)
   Lemma radical_sq_le : radical * radical <= radicand.
   Proof.
-    unfold radical, arc_radical. destruct (isclose0 NumR radicand).
-    - change (zero NumR) with 0. pose proof radicand_ge0. lra.
-    - cbn [sqrt_ NumTR]. rewrite sqrt_sqrt; [lra|apply radicand_ge0].
+    pose proof radicand_ge0 as Hr.
+    destruct radical_cases as [[-> _]|[-> _]]; [lra|rewrite sqrt_sqrt; lra].
   Qed.
   Lemma u1r_norm_le : cnorm2 NumR u1r <= 1.
   Proof.
@@ -618,8 +648,9 @@ Section Param.
 
   Lemma arc_point0_only_if : arc_point NumR NumTR P 0 = start -> snap_inactive.
   Proof.
-    intros H Hc.
-    assert (Hk : radical = 0) by (unfold radical, arc_radical; now rewrite Hc).
+    intros H. unfold snap_inactive. destruct fx_cases as [Efx|Efx]; rewrite Efx; [exact I|]. intros Hc.
+    assert (Hk : radical = 0).
+    { unfold radical, arc_radical_of, arc_radical. rewrite Efx. fold radicand. now rewrite Hc. }
     set (th := a_theta P * PI / 180).
     assert (H1 : fst rS * cos phi * cos th - snd rS * sin phi * sin th + fst center
                  = fst rS * cos phi * fst u1r - snd rS * sin phi * snd u1r + fst center).
@@ -660,9 +691,10 @@ Section Param.
   Qed.
 
   (* so inside the snapped region 0 < radicand <= 1e-8 the arc does not start at start *)
-  Lemma arc_point0_snapped : 0 < radicand <= atol8 NumR -> arc_point NumR NumTR P 0 <> start.
+  Lemma arc_point0_snapped : fx = false ->
+    0 < radicand <= atol8 NumR -> arc_point NumR NumTR P 0 <> start.
   Proof.
-    intros [A B] H. apply arc_point0_only_if in H.
+    intros Efx [A B] H. apply arc_point0_only_if in H. unfold snap_inactive in H. rewrite Efx in H.
     assert (radicand = 0); [|lra]. apply H. apply isclose0_R. rewrite Rabs_right; lra.
   Qed.
 
@@ -731,9 +763,8 @@ Section Param.
     pose proof (one_plus_radicand (fst rS) (snd rS) (fst z) (snd z) H H0 z_nonzero) as H1.
     fold rcS in H1. rewrite <- radicand_eq in H1.
     replace (radical * radical) with radicand; [exact H1|].
-    unfold radical, arc_radical in *. destruct (isclose0 NumR radicand).
-    - change (zero NumR) with 0 in Hk. lra.
-    - cbn [sqrt_ NumTR]. symmetry. apply sqrt_sqrt. apply radicand_ge0.
+    destruct radical_cases as [[E _]|[E _]]; [lra|].
+    rewrite E. symmetry. apply sqrt_sqrt. apply radicand_ge0.
   Qed.
 
   Lemma delta0_half : radical = 0 -> arc_delta0 NumR NumTR u1 u2 = 180.
@@ -819,22 +850,19 @@ Section Param.
   Qed.
 
   (* what decides between the two: radical > 0 iff the radicand survives the snap *)
-  Lemma radical_pos_iff : 0 < radical <-> atol8 NumR < radicand.
+  Lemma radical_pos_iff : 0 < radical <-> snap_thr < radicand.
   Proof.
-    unfold radical, arc_radical. pose proof radicand_ge0 as Hr. pose proof atol8_R_pos as Ha.
-    destruct (isclose0 NumR radicand) eqn:E.
-    - apply isclose0_R in E. rewrite Rabs_right in E by lra. change (zero NumR) with 0. split; lra.
-    - assert (~ Rabs radicand <= atol8 NumR) as Hn by (rewrite <- isclose0_R; congruence).
-      rewrite Rabs_right in Hn by lra. cbn [sqrt_ NumTR]. split; intros; [lra|].
-      apply sqrt_lt_R0. lra.
+    pose proof snap_thr_ge0 as Ht.
+    destruct radical_cases as [[E H]|[E H]]; rewrite E; split; intros; try lra.
+    apply sqrt_lt_R0. lra.
   Qed.
-  Lemma arc_large_strict : atol8 NumR < radicand -> (180 < Rabs (a_delta P) <-> large = true).
+  Lemma arc_large_strict : snap_thr < radicand -> (180 < Rabs (a_delta P) <-> large = true).
   Proof.
     intros H. apply radical_pos_iff in H. apply arc_large_flag.
     destruct arc_delta_cases as [[H0 _]|[_ [H1|[H1|[H1|H1]]]]]; [lra| | | |];
       destruct H1 as [_ [_ H1]]; unfold Rabs; destruct (Rcase_abs _); lra.
   Qed.
-  Lemma arc_half_when_snapped : radicand <= atol8 NumR -> Rabs (a_delta P) = 180.
+  Lemma arc_half_when_snapped : radicand <= snap_thr -> Rabs (a_delta P) = 180.
   Proof.
     intros H. destruct arc_delta_cases as [[_ ->]|[H0 _]].
     - destruct sweep; [rewrite Rabs_right|rewrite Rabs_left]; lra.
@@ -870,12 +898,13 @@ Section Param.
     replace ((a_theta P + 0 * a_delta P) * PI / 180) with (a_theta P * PI / 180) by field.
     rewrite center_eq, (radical_zero_cp Hk). cbn [fst snd]. split; field.
   Qed.
-  Lemma arc_point1_snapped : 0 < radicand <= atol8 NumR -> arc_point NumR NumTR P 1 <> end_.
+  Lemma arc_point1_snapped : fx = false ->
+    0 < radicand <= atol8 NumR -> arc_point NumR NumTR P 1 <> end_.
   Proof.
-    intros H E. apply (arc_point0_snapped H).
+    intros Efx H E. apply (arc_point0_snapped Efx H).
     assert (Hk : radical = 0).
     { destruct (Rle_lt_or_eq_dec _ _ radical_ge0) as [Hp|Hz]; [|auto].
-      apply radical_pos_iff in Hp. lra. }
+      apply radical_pos_iff in Hp. unfold snap_thr, snap_thr_of in Hp. rewrite Efx in Hp. lra. }
     destruct (snapped_symmetric Hk) as [A B]. rewrite E in A, B.
     apply cplx_eq; lra.
   Qed.
@@ -924,9 +953,9 @@ Proof.
   - transitivity ((c * c + s * s) * sin A / (c * c + s * s)); [field; split; lra|]. rewrite Hu. field.
 Qed.
 
-Lemma on_ellipse_init start radius rotation large sweep end_ t :
+Lemma on_ellipse_init fx start radius rotation large sweep end_ t :
   start <> end_ -> fst radius <> 0 -> snd radius <> 0 ->
-  let P := arc_init NumR NumTR start radius rotation large sweep end_ in
+  let P := arc_init_v NumR NumTR fx start radius rotation large sweep end_ in
   cnorm2 NumR (arc_u1transform NumR P (arc_point NumR NumTR P t)) = 1.
 Proof.
   intros Hse Hx Hy P.
@@ -972,5 +1001,8 @@ Proof. rewrite S_radicand, atol8_R_val. lra. Qed.
 Lemma S_adm : Sstart <> Send /\ fst Srad <> 0 /\ snd Srad <> 0.
 Proof. unfold Sstart, Send, Srad. cbn [fst snd]. repeat split; try lra. intros H. inversion H. lra. Qed.
 Lemma S_point0_ne large sweep :
-  arc_point NumR NumTR (arc_init NumR NumTR Sstart Srad 0 large sweep Send) 0 <> Sstart.
+  arc_point NumR NumTR (arc_init_v NumR NumTR false Sstart Srad 0 large sweep Send) 0 <> Sstart.
 Proof. destruct S_adm as [A [B C]]. apply arc_point0_snapped; auto. apply S_snapped. Qed.
+Lemma S_point1_ne large sweep :
+  arc_point NumR NumTR (arc_init_v NumR NumTR false Sstart Srad 0 large sweep Send) 1 <> Send.
+Proof. destruct S_adm as [A [B C]]. apply arc_point1_snapped; auto. apply S_snapped. Qed.
